@@ -461,6 +461,7 @@ def run(res, facts, tier):
     r6_alternative(res, facts)
     r7_imports(res, facts)
     r8_coverage(res, facts)
+    r9_current_rule(res, facts)
 
 
 def r7_imports(res, facts):
@@ -616,4 +617,66 @@ def r8_coverage(res, facts):
             r.violation(site, 'filed in %s; nodes looked up in %s never see the rule' % (sorted(filed) or 'no list', sorted(missing)), common.file_line(a, chain[0]))
         else:
             r.ok(site, 'filed in %s' % sorted(filed))
+    return r
+
+
+def r9_current_rule(res, facts):
+    """xsl:apply-imports looks among the rules imported into the stylesheet of the CURRENT TEMPLATE RULE: set by apply-templates (the matched rule),
+    unchanged by call-template, null inside for-each (XSLT 1.0 §5.6, §6, §8)."""
+    r = res.rule('C10-R9', 'current template rule protocol: ElemTemplate::startElement pushes itself except when invoked by xsl:call-template (then it keeps the caller\'s rule); xsl:for-each '
+                 'pushes a null rule; every push has its pop in the matching endElement; apply-imports searches the imports of the current rule\'s stylesheet', floor=4)
+    cands = [a for a in facts.asts('ElemTemplate::startElement') if a['file'].endswith('ElemTemplate.cpp')]
+    if len(cands) != 1:
+        raise AnalysisBroken('ElemTemplate::startElement: %d bodies' % len(cands))
+    a = cands[0]
+    cfg = CFG(a)
+    must = common.must_conds(cfg)
+    pushes = common.find_call_nodes(cfg, 'pushCurrentTemplate')
+    self_ok = keep_ok = False
+    for n, c in pushes:
+        arg = strip_casts(c['args'][0])
+        conds = [(pp(common.norm_atom(at, br)[0]), common.norm_atom(at, br)[1]) for at, br in must.get(n.id, [])]
+        call_cond = [b for t, b in conds if 'ELEMNAME_CALL_TEMPLATE' in t and '==' in t]
+        ncall_cond = [b for t, b in conds if 'ELEMNAME_CALL_TEMPLATE' in t and '!=' in t]
+        invoked_by_call = (True in call_cond) or (False in ncall_cond)
+        not_by_call = (False in call_cond) or (True in ncall_cond) or any('theInvoker' in t and ('== 0' in t or '0 ==' in t) and b for t, b in conds) or any(t.startswith('(theInvoker != 0') and not b for t, b in conds)
+        if arg.get('k') == 'This':
+            if not_by_call or not invoked_by_call and any('ELEMNAME_CALL_TEMPLATE' in t for t, b in conds) is False and False:
+                self_ok = True
+            elif not invoked_by_call and not any('ELEMNAME_CALL_TEMPLATE' in pp(x) for x in walk(a['body'])):
+                r.violation('ElemTemplate::startElement: current template rule', 'the template pushes itself as the current template rule whatever invoked it: inside a template called '
+                            'with xsl:call-template, xsl:apply-imports then searches the imports of the named template\'s stylesheet instead of those of the caller\'s rule', common.file_line(a, c))
+                return r
+            else:
+                self_ok = self_ok or not invoked_by_call
+        elif 'getCurrentTemplate' in pp(arg):
+            keep_ok = keep_ok or invoked_by_call
+    if self_ok and keep_ok:
+        r.ok('ElemTemplate::startElement: pushes itself unless invoked by xsl:call-template, then the caller\'s rule')
+    elif not pushes:
+        r.violation('ElemTemplate::startElement: current template rule', 'no pushCurrentTemplate', common.file_line(a))
+    else:
+        r.violation('ElemTemplate::startElement: current template rule', 'pushes: %s — the rule of the caller is not kept for xsl:call-template (self %s, keep %s)' % ([pp(c)[:50] for n, c in pushes], self_ok, keep_ok), common.file_line(a))
+    for b in [x for x in facts.asts('ElemTemplate::endElement') if x['file'].endswith('ElemTemplate.cpp')]:
+        if any((c.get('n') or '') == 'popCurrentTemplate' for c in calls(b['body'])):
+            r.ok('ElemTemplate::endElement: pops the current template rule')
+        else:
+            r.violation('ElemTemplate::endElement', 'the rule pushed by startElement is not popped', common.file_line(b))
+    fe = [x for x in facts.asts('ElemForEach::startElement', must=False) if x['file'].endswith('ElemForEach.cpp')]
+    for b in fe:
+        ps = [c for c in calls(b['body']) if (c.get('n') or '') == 'pushCurrentTemplate']
+        if ps and all(strip_casts(c['args'][0]).get('cv') == 0 or strip_casts(c['args'][0]).get('k') == 'Nullptr' for c in ps):
+            r.ok('ElemForEach::startElement: the current template rule is null inside xsl:for-each')
+        else:
+            r.violation('ElemForEach::startElement', 'xsl:for-each does not reset the current template rule to null (%s)' % [pp(c) for c in ps], common.file_line(b))
+    tc = [x for x in facts.asts_t('ElemTemplateElement::findTemplateToTransformChild', must=False)]
+    n_ok = 0
+    for b in tc:
+        txt = ' '.join(pp(x) for x in walk(b['body']) if x.get('k') == 'Cond')
+        if 'getCurrentTemplate().getStylesheet()' in txt.replace('->', '.').replace('executionContext.', '') or 'getCurrentTemplate' in txt and 'getStylesheet' in txt:
+            n_ok += 1
+    if n_ok:
+        r.ok('findTemplateToTransformChild: apply-imports starts from the stylesheet of the current template rule (%d overloads)' % n_ok)
+    else:
+        r.violation('findTemplateToTransformChild', 'apply-imports no longer starts from the stylesheet of the current template rule', None)
     return r
